@@ -152,3 +152,13 @@ def run(facts, rep, ctx):
     _run_before_round5(facts, rep, ctx)
     from . import round5
     round5.ls1(facts, rep)
+
+
+_run_before_round6 = run
+
+
+def run(facts, rep, ctx):
+    """rules added after the fifth seeding round (rules/round6.py)"""
+    _run_before_round6(facts, rep, ctx)
+    from . import round6
+    round6.cf2(facts, rep, ['data_structures::fmindex::', 'data_structures::bwt::'], 70)
